@@ -81,7 +81,7 @@ def r2(ctx):
       seen['dup'] = not add
     else:
       seen['new'] = len(add) == 1 and [U(a) for a in add[0].node.args] == [j.params[1]]
-  ctx.ob('C05.R2', j, 'duplicate join is ignored, new member is added', seen == {'dup': True, 'new': True}, 'join cases: %s' % seen, why)
+  ctx.ob('C05.R2', j, 'a new member is added; a duplicate join is ignored here or in __AddServer', seen.get('new') is True and seen.get('dup', True) is True, 'join cases: %s' % seen, why)
   a = prog.func(B, 'LoadBalancerSink.__AddServer')
   for ev, ex in enum_paths(ctx, a):
     fs = facts(ev)
